@@ -47,6 +47,9 @@ type foundCase struct {
 	Finding  Finding `json:"finding"`
 	Plan     *Plan   `json:"plan"`
 	Original int     `json:"original_steps"`
+	// Orig is the plan as generated (reported when the minimised one turns
+	// out to sit on an edge and does not replay).
+	Orig *Plan `json:"original_plan,omitempty"`
 }
 
 func newChecker() *checker {
@@ -172,7 +175,11 @@ func TestWorker(t *testing.T) {
 			}
 			seenClause[f.Clause] = true
 			minp := shrinkPlan(p, f.Clause)
-			out.Findings = append(out.Findings, foundCase{Finding: f, Plan: minp, Original: len(p.Steps)})
+			fc := foundCase{Finding: f, Plan: minp, Original: len(p.Steps)}
+			if len(minp.Steps) < len(p.Steps) {
+				fc.Orig = p
+			}
+			out.Findings = append(out.Findings, fc)
 		}
 	}
 	sort.Strings(out.Distinct)
@@ -451,10 +458,24 @@ func orchestrate() int {
 			fmt.Fprintln(os.Stderr, "INFRASTRUCTURE:", err)
 			return 2
 		}
-		cmd := exec.Command(self, "-test.run=^TestReplay$")
-		cmd.Env = append(os.Environ(), "LIVESIM_MODE=replay", "LIVESIM_CASE="+path)
-		ob, _ := cmd.CombinedOutput()
-		if !bytes.Contains(ob, []byte("REPRODUCED property=C20 clause="+f.Finding.Clause)) || bytes.Contains(ob, []byte("NOT-REPRODUCED")) {
+		tryReplay := func() []byte {
+			cmd := exec.Command(self, "-test.run=^TestReplay$")
+			cmd.Env = append(os.Environ(), "LIVESIM_MODE=replay", "LIVESIM_CASE="+path)
+			ob, _ := cmd.CombinedOutput()
+			return ob
+		}
+		reproduced := func(ob []byte) bool {
+			return bytes.Contains(ob, []byte("REPRODUCED property=C20 clause="+f.Finding.Clause)) && !bytes.Contains(ob, []byte("NOT-REPRODUCED"))
+		}
+		ob := tryReplay()
+		if !reproduced(ob) && f.Orig != nil {
+			// the minimised plan sits on an edge: report the plan as generated
+			rf.Plan, rf.Note = f.Orig, fmt.Sprintf("the plan as generated (%d steps); its minimised form did not replay reliably", len(f.Orig.Steps))
+			b, _ := json.MarshalIndent(rf, "", " ")
+			os.WriteFile(path, b, 0o644)
+			ob = tryReplay()
+		}
+		if !reproduced(ob) {
 			// never a VIOLATION; other findings of the batch are still reported
 			fmt.Fprintf(os.Stderr, "INFRASTRUCTURE: fresh-process replay of %s did not reproduce (dropped): %s\n", path, tail(string(ob), 400))
 			os.Remove(path)
